@@ -31,6 +31,8 @@ SMem(v, T, env, ex) ==
   CASE T.t = "prim" -> (CASE T.p = "null" -> v.k = "null" [] T.p = "boolean" -> v.k = "bool" [] T.p = "number" -> v.k = "num"
                           [] T.p = "string" -> v.k = "str" [] T.p \in {"any", "unknown"} -> TRUE [] OTHER -> FALSE)
     [] T.t = "lit"   -> v = T.v
+    \* (template literal types are outside the fragment of C05 - C07; TsEval meets them as operands of Exclude / Extract)
+    [] T.t = "tpl"   -> v.k = "str" /\ TplM3(v.s, T.parts, {}) = "T"
     [] T.t = "arr"   -> v.k = "arr" /\ \A i \in DOMAIN v.es : SMem(v.es[i], T.e, env, ex)
     [] T.t = "tuple" -> /\ v.k = "arr" /\ Len(v.es) >= Len(T.es) /\ (T.r = <<>> => Len(v.es) = Len(T.es))
                         /\ \A i \in DOMAIN T.es : SMem(v.es[i], T.es[i], env, ex)
@@ -83,6 +85,11 @@ WitK(T, env, C, fuel, K) ==
                           [] T.p \in {"any", "unknown"} -> {VNull, VNum("7"), VStr("zz"), VObj(<<>>), VArr(<<>>)}
                           [] OTHER -> {})
     [] T.t = "lit" -> {T.v}
+    [] T.t = "tpl" -> LET RECURSIVE One(_)
+                          One(ps) == IF ps = <<>> THEN "" ELSE
+                                     (CASE Head(ps).p = "lit" -> Head(ps).s [] Head(ps).p = "str" -> "q" [] Head(ps).p = "num" -> "1"
+                                        [] Head(ps).p = "bool" -> "true" [] Head(ps).p = "oneof" -> Head(ps).ss[1] [] OTHER -> "") \o One(Tail(ps))
+                      IN {VStr(One(T.parts))} \cup {VStr(x) : x \in {x \in C.strs : TplM3(x, T.parts, {}) = "T"}}
     [] T.t = "arr" -> LET W == TakeS(WitK(T.e, env, C, fuel, K), K.w) IN
                       {VArr(<<>>)} \cup {VArr(<<w>>) : w \in W} \cup {VArr(<<w1, w2>>) : w1 \in W, w2 \in W}
                       \cup (IF C.maxlen >= 3 THEN {VArr(<<w1, w2, w1>>) : w1 \in W, w2 \in W} ELSE {})
